@@ -146,4 +146,46 @@ theorem deliver_err_unchanged (s : State) (m : Msg) (e : Err) (h : (deliver H Hc
       | ok => simp [hh] at h
       | err e' => simp
 
+/-- a successful `MsgRecvPacket` passed every pre-write check of `RecvPacket` -/
+theorem deliver_recv_ok (s : State) (p : Packet) (π : Proof) (h : Nat) (t : String)
+    (hok : (deliver H Hc s (.recvPacket p π h t)).2 = .ok) :
+    Core.RecvOk H s.core p π h := by
+  unfold deliver at hok
+  cases hv : validateBasic (.recvPacket p π h t) with
+  | err e => simp [hv] at hok
+  | ok =>
+    simp only [hv] at hok
+    cases hh : handle H Hc s (.recvPacket p π h t) with
+    | mk s' r =>
+      cases r with
+      | err e => simp [hh] at hok
+      | ok =>
+        simp only [handle] at hh
+        unfold msgRecvPacket at hh
+        rcases Core.recvPacket_cases H s.core p π h with ⟨hrok, _⟩ | ⟨_, e, hcls, he⟩
+        · exact hrok
+        · rw [he] at hh
+          rcases hcls with rfl | rfl | rfl <;> simp at hh
+
+/-- a successful `MsgAcknowledgement` passed every pre-write check of `AcknowledgePacket` -/
+theorem deliver_ack_ok (s : State) (p : Packet) (a : Data) (π : Proof) (h : Nat)
+    (hok : (deliver H Hc s (.acknowledgement p a π h)).2 = .ok) :
+    Core.AckOk H s.core p a π h := by
+  unfold deliver at hok
+  cases hv : validateBasic (.acknowledgement p a π h) with
+  | err e => simp [hv] at hok
+  | ok =>
+    simp only [hv] at hok
+    cases hh : handle H Hc s (.acknowledgement p a π h) with
+    | mk s' r =>
+      cases r with
+      | err e => simp [hh] at hok
+      | ok =>
+        simp only [handle] at hh
+        unfold msgAcknowledgement at hh
+        rcases Core.acknowledgePacket_cases H s.core p a π h with ⟨hrok, _⟩ | ⟨_, e, he⟩
+        · exact hrok
+        · rw [he] at hh
+          split at hh <;> simp at hh
+
 end Tibc
